@@ -168,6 +168,7 @@ class LDAPMessageParsableBase(ParsableBase):
         return message
 
 
+@attr.s
 class LDAPExtendedRequestStartTLS(LDAPMessageParsableBase):
     @classmethod
     def _parse(cls, parsable):
